@@ -383,7 +383,46 @@ Section More.
       repeat split; try discriminate; intros x Hx; left; apply clean_state_K in Hx; auto.
     - intros [= <-]. repeat split; auto; intros x [[]|[]].
   Qed.
+
+  (** a VBK block the tree accepts does not survive a connect pass in flight (in particular the in-flight copy of a
+      block that became a relation header through an ATV / VTB is gone after the next pass) *)
+  Lemma submitB_fb v st x s y : In y (fb (submitB v st x s)) -> y = x \/ In y (fb s).
+  Proof.
+    destruct v; simpl; auto.
+    - rewrite sadd_In. tauto.
+    - destruct st; simpl; rewrite sdel_In; tauto.
+  Qed.
+  Lemma passB_fb c b : (forall s', vB c s' b = Fine) ->
+    forall l s, In b l \/ ~ In b (fb s) -> ~ In b (fb (passB c l s)).
+  Proof.
+    intros Hv. induction l as [|x l IH]; intros s H.
+    - destruct H as [[]|H]; exact H.
+    - change (passB c (x :: l) s) with (passB c l (submitB (vB c s x) (stB c s x) x s)). apply IH.
+      destruct (N.eq_dec x b) as [->|Hne].
+      + right. rewrite Hv. simpl. destruct (stB c s b); simpl; rewrite sdel_In; tauto.
+      + destruct H as [[E|H]|H]; [congruence|left; exact H|right].
+        intros Hin. apply submitB_fb in Hin. destruct Hin; [congruence|auto].
+  Qed.
+  Lemma passV_fb c l : forall s, fb (passV cont c l s) = fb s.
+  Proof.
+    induction l as [|t l IH]; intros s; [reflexivity|].
+    change (passV cont c (t :: l) s) with (passV cont c l (submitV cont (vV c s t) t s)). rewrite IH.
+    destruct (vV c s t); reflexivity.
+  Qed.
+  Lemma passA_fb c l : forall s, fb (passA bop c l s) = fb s.
+  Proof.
+    induction l as [|a l IH]; intros s; [reflexivity|].
+    change (passA bop c (a :: l) s) with (passA bop c l (submitA bop (vA c s a) a s)). rewrite IH.
+    destruct (vA c s a); reflexivity.
+  Qed.
+  Lemma inflight_block_resolved_lemma c s b :
+    (forall s', vB c s' b = Fine) -> ~ In b (fb (tryConnect bop cont c s)).
+  Proof.
+    intros Hv. unfold tryConnect. rewrite passA_fb, passV_fb. apply passB_fb; auto.
+    destruct (in_dec N.eq_dec b (fb s)); auto.
+  Qed.
 End More.
+
 
 (** ** examples *)
 Definition ex_bop (a : N) : N := 7.
